@@ -162,6 +162,7 @@ type RunResult struct {
 	Switches   [4]int64         `json:"-"` // total, shared, dep, callback
 	Deadlock   bool             `json:"-"`
 	Aborted    bool             `json:"-"`
+	Killed     bool             `json:"-"`
 	Crash      string           `json:"-"`
 	Races      int              `json:"-"`
 	Digest     uint64           `json:"-"`
@@ -194,10 +195,19 @@ func poolDigest(pool []*Input) uint64 {
 	return h.Sum64()
 }
 
-func outcomesDigest(outs [][]Outcome) uint64 {
+// outcomesDigest digests the outcomes for comparison between processes. An
+// operation that was cut off by the step budget, or finished above half of
+// it, contributes a neutral token and ends its task's contribution: step
+// counts may differ a little between processes (work done once per process),
+// which must not look like a different result.
+func outcomesDigest(outs [][]Outcome, budget int64) uint64 {
 	h := fnv.New64a()
 	for _, t := range outs {
 		for i := range t {
+			if t[i].Diverged || (budget > 0 && t[i].Steps > budget/2) {
+				h.Write([]byte("at-the-step-budget"))
+				break
+			}
 			h.Write([]byte(t[i].key()))
 			h.Write([]byte{0})
 		}
@@ -206,10 +216,20 @@ func outcomesDigest(outs [][]Outcome) uint64 {
 	return h.Sum64()
 }
 
+// schedHash identifies the interleaving: the sequence of preemptions (task,
+// stop site). It is 0 for a run without any context switch inside library
+// code.
 func schedHash(tr []vsimrt.Segment) uint64 {
 	h := fnv.New64a()
+	n := 0
 	for _, s := range tr {
-		fmt.Fprintf(h, "%d:%d:%d;", s.Task, s.Site, s.Why)
+		if (s.Why == vsimrt.WhySeg || s.Why == vsimrt.WhyShared) && s.Site < vsimrt.SiteCallbackBase {
+			fmt.Fprintf(h, "%d:%d:%d;", s.Task, s.Site, s.Why)
+			n++
+		}
+	}
+	if n == 0 {
+		return 0
 	}
 	return h.Sum64()
 }
@@ -261,6 +281,9 @@ func runTasksSim(fns []func(), ch vsimrt.Chooser, res *RunResult) *vsimrt.Sched 
 		if sch.Aborted {
 			res.Aborted = true
 		}
+		if sch.Killed {
+			res.Killed = true
+		}
 	}
 	return sch
 }
@@ -289,11 +312,14 @@ func execC12(s *Script) *RunResult {
 		res.addViol(c.viol...)
 		res.Stats.merge(c.st)
 	}
+	if res.Crash != "" || res.Deadlock || res.Aborted {
+		res.Stats.Judged["inconclusive: history cut short (internal goroutine crashed, deadlock or step cap)"]++
+	}
 	if poolDigest(pool) != before {
 		res.addViol(Violation{Class: "immutability", Symptom: "pool-modified", Detail: "a pool entry changed although only private copies were handed out"})
 	}
 	res.Pool = vsimrt.ResetPoolStats()
-	res.Digest = outcomesDigest(res.Outcomes)
+	res.Digest = outcomesDigest(res.Outcomes, s.Budget)
 	res.Shape = shapeOf(s)
 	return res
 }
@@ -376,6 +402,9 @@ func execC18(s *Script, ch vsimrt.Chooser) *RunResult {
 	}
 	_ = soloViol // the same monitors fire in the concurrent phase; solo ones would be duplicates
 	soloCrash := soloRes.Crash
+	if soloRes.Deadlock {
+		res.Stats.Judged["inconclusive: the solo execution itself deadlocked"]++
+	}
 	if res.Aborted || soloRes.Aborted {
 		// a goroutine of the code under test ran on beyond the cap on the
 		// run's total steps: nothing is concluded from this run
@@ -424,7 +453,7 @@ func execC18(s *Script, ch vsimrt.Chooser) *RunResult {
 		res.addViol(Violation{Class: "race", Symptom: "data-race", Detail: fmt.Sprintf("%d data race report(s) by the Go race detector during this run", n)})
 	}
 	res.Pool = vsimrt.ResetPoolStats()
-	res.Digest = outcomesDigest(conc) ^ traceDigest(res.Trace)
+	res.Digest = outcomesDigest(conc, s.Budget) ^ traceDigest(res.Trace)
 	res.SchedHash = schedHash(res.Trace)
 	res.Shape = shapeOf(s)
 	return res
@@ -638,7 +667,10 @@ func execC17(s *Script, ch vsimrt.Chooser) *RunResult {
 	}
 	res.Outcomes = [][]Outcome{ref}
 	res.Pool = vsimrt.ResetPoolStats()
-	res.Digest = outcomesDigest(res.Outcomes)
+	res.Digest = outcomesDigest(res.Outcomes, s.Budget)
+	if ref == nil {
+		res.Digest = 0 // aborted: not comparable
+	}
 	res.Shape = shapeOf(s)
 	return res
 }
